@@ -686,11 +686,29 @@ class Package:
         mod, _, name = short.partition(".")
         m = self.module(mod)
         if name not in m.classes:
-            alt = self._class_fallback(short)
+            alt = self._class_fallback(short) or self._relocated_class(short)
             if alt is not None:
                 return alt
             raise AnalysisError(f"anchored class {short} is missing")
         return m.classes[name]
+
+    def _relocated_class(self, short: str) -> Optional[ClassInfo]:
+        """Last resort for an anchored class that is not where the anchor says: the one class of the package that has its
+        name (leading underscores aside), if its old module still imports that name - a class moved to another module of
+        the package by a clean-up commit."""
+        mod, _, name = short.partition(".")
+        base = name.lstrip("_")
+        found = [info for m in self.modules.values() for cname, info in m.classes.items() if cname.lstrip("_") == base]
+        if len(found) != 1 or found[0].module.short == mod:
+            return None
+        home = self.modules.get(f"{PKG}.{mod}")
+        if home is None:
+            return None
+        for local in home.symbols:
+            res = self.resolve_global(home, local)
+            if res.kind == "lib" and res.qual == found[0].fq:
+                return found[0]
+        return None
 
     def _class_fallback(self, short: str, _depth: int = 0) -> Optional[ClassInfo]:
         spec = self.CLASS_FALLBACKS.get(short)
@@ -741,7 +759,7 @@ class Package:
             info = m.classes.get(cname) or self._class_fallback(f"{mod}.{cname}", _depth)
             if info is not None and meth in info.methods:
                 return info.methods[meth]
-        found = self._fallback(short)
+        found = self._fallback(short) or self._relocated_unit(short)
         if found is None and cname:
             # a function nested in an anchored helper that is found structurally: ``_core.force_async.async_wrapped``
             outer = self._fallback(f"{mod}.{cname}")
@@ -751,6 +769,26 @@ class Package:
                 if named or len(nested) == 1:
                     return (named or nested)[0]
         return found
+
+    def _relocated_unit(self, short: str) -> Optional[Unit]:
+        """Last resort for an anchored module-level function that is not where the anchor says: the one function of the
+        package with its name (leading underscores aside) and no other of that name - moved to another module, or made a
+        static method of a class of its old module."""
+        mod, _, qual = short.partition(".")
+        if "." in qual:
+            return None
+        base = qual.lstrip("_")
+        if not base:
+            return None
+        cands = [u for m in self.modules.values() for u in m.units.values()
+                 if u.parent is None and u.qualname.rsplit(".", 1)[-1].lstrip("_") == base and not u.is_overload()
+                 and (u.cls is None or u.is_static())]
+        if len(cands) != 1:
+            return None
+        u = cands[0]
+        if u.cls is not None and u.module.short != mod:
+            return None
+        return u
 
     def cls_name(self, short: str) -> str:
         """The actual (possibly renamed) name of an anchored class."""
